@@ -16,8 +16,10 @@ Decides, for the API layer (automerge.rs, autocommit.rs, transaction/*, hydrate*
  (R7e) entry points resolve caller-supplied object ids only through exid_to_obj / exid_to_opid (errors propagate): every
        ReadDoc / Transactable method of Automerge and TransactionInner that takes an ExId hands it to one of the
        resolvers (or to a callee that does) and never reads its fields (a match on Root / Id without binding the fields is allowed).
-Not decided: panics inside the op-set queries and sequence tree reached with *valid* ids (value-level invariants), text_diff /
-myers arithmetic, debug-only arithmetic overflow.
+The R7d inventory also covers the OpSet query methods the API layer calls (directly or through one more OpSet method): they receive
+the caller's object ids, indexes and cursors.
+Not decided: panics deeper inside the op-set (iterators, column edits, sequence tree) reached with *valid* ids (value-level
+invariants), text_diff / myers arithmetic, debug-only arithmetic overflow.
 """
 import re
 from .. import cfg, util, rules, facts, panics
@@ -34,6 +36,25 @@ OPT_TAKE = "core::option::Option::take"
 
 def entry_fns(f):
     return sorted(p for p, r in f.fns.items() if r["ckey"] == ("automerge", "lib") and ENTRY.match(norm_fn(p)) and not C15.in_layer(norm_fn(p)))
+
+
+OPSET = "automerge::op_set2::op_set::OpSet::"
+
+
+def opset_query_fns(f, entry):
+    """OpSet methods that receive the caller's arguments: called from the API layer directly or through one more OpSet method"""
+    lvl = set()
+    for p in entry:
+        for bi, t in f.calls(f.fns[p]):
+            tgt = t.get("res") or t.get("fn")
+            if tgt in f.fns and norm_fn(tgt).startswith(OPSET):
+                lvl.add(tgt)
+    for p in list(lvl):
+        for bi, t in f.calls(f.fns[p]):
+            tgt = t.get("res") or t.get("fn")
+            if tgt in f.fns and norm_fn(tgt).startswith(OPSET):
+                lvl.add(tgt)
+    return sorted(lvl)
 
 
 def constructs(f, p):
@@ -136,6 +157,9 @@ def run(ctx):
     table = ctx.table("api_panic_sites.tsv")
     fns = entry_fns(f)
     ctx.floor("functions (and closures) in the API-layer modules", len(fns), 600)
+    qfns = [p for p in opset_query_fns(f, fns) if p not in fns]
+    ctx.floor("OpSet query methods reached from the API layer (two call levels)", len(qfns), 40)
+    fns = fns + qfns
     n = nauto = 0
     for p in fns:
         r = f.fns[p]
